@@ -90,6 +90,7 @@ def byronDecode (addr : List Char) : R Bytes := do
       match cborReadBytes r2 with
       | some (payload, r3) =>
         match cborReadHead r3 with
+        | some (1, _, []) => throw .value      -- a negative CBOR integer is never the CRC-32 of the payload
         | some (0, crc, []) =>
           if crc ≠ crc32 payload then throw .value
           match cborReadHead payload with
